@@ -180,7 +180,7 @@ func ruleUnitDefs(r *Report) {
 		allInstrs(fn, func(ins ssa.Instruction) {
 			if ms, isMS := ins.(*ssa.MakeSlice); isMS && isBitmap(ms.Type()) {
 				seen = true
-				if c, isC := constInt(ms.Len); !isC || c != int64(1)<<(shift-6) {
+				if c, isC := constInt(ms.Len); !isC || c < int64(1)<<(shift-6) { // at least a block's words: a longer scratch is intersected over the block's words only
 					ok = false
 				}
 			}
@@ -189,7 +189,7 @@ func ruleUnitDefs(r *Report) {
 				if al, isAl := sl.X.(*ssa.Alloc); isAl {
 					if arr, isArr := al.Type().Underlying().(*types.Pointer).Elem().Underlying().(*types.Array); isArr {
 						seen = true
-						if arr.Len() != int64(1)<<(shift-6) {
+						if arr.Len() < int64(1)<<(shift-6) {
 							ok = false
 						}
 					}
@@ -197,7 +197,7 @@ func ruleUnitDefs(r *Report) {
 			}
 		})
 		if seen {
-			h.Check(ok, "(*column.Txn).WithUnion/scratch", r.P.Pos(fn.Pos()), "scratch bitmap covers one block", "the scratch bitmap of WithUnion does not have chunkSize/64 words: the union of a block is truncated or reads beyond it")
+			h.Check(ok, "(*column.Txn).WithUnion/scratch", r.P.Pos(fn.Pos()), "scratch bitmap covers one block", "the scratch bitmap of WithUnion has fewer than chunkSize/64 words: the union of a block is truncated")
 		}
 	}
 	_ = strings.TrimSpace
